@@ -34,7 +34,7 @@ PI = math.pi
 def gates(tier):
     return {'forward_value_checks': 6000, 'inverse_roundtrips': 3000, 'principal_range_checks': 1000,
             'pole_or_domain_errors': 150, 'arity_errors': 100, 'shape_errors': 300,
-            'matrix_function_checks': 600, 'arctan2_checks': 150, 'saturating_checks': 400, 'domain_checks_after_infinity_comparisons': 150, 'constants': 4, 'functions_covered': 35 * 16}
+            'matrix_function_checks': 600, 'arctan2_checks': 150, 'saturating_checks': 400, 'int_argument_checks': 1000, 'domain_checks_after_infinity_comparisons': 150, 'constants': 4, 'functions_covered': 35 * 16}
 
 
 def _c(z):
@@ -325,6 +325,34 @@ def run_scalar(ctx, table, tag):
     return covered
 
 
+def run_int_arguments(ctx, table):
+    """Integer-typed arguments (kronecker sums, integer constants) are numbers like any other: f(2) == f(2.0)."""
+    names = sorted(n for n in (set(FORWARD) | set(INVERSE)) if n in table)
+    for name in names:
+        for k in (-3, -2, -1, 0, 1, 2, 3, 7):
+            a = call_fn(ctx, table, name, [int(k)])
+            b = call_fn(ctx, table, name, [float(k)])
+            ctx.ev(2)
+            ctx.count('int_argument_checks')
+            wit = {'function': name, 'argument': k, 'with_int': a.brief(), 'with_float': b.brief()}
+            if a.returned != b.returned:
+                ctx.violation('C15:int_argument:outcome_differs:' + name, '%s(%d) %r but %s(%d.0) %r' % (name, k, a.brief(), name, k, b.brief()), wit)
+            elif a.returned and not close(a.value, b.value):
+                ctx.violation('C15:int_argument:value_differs:' + name, '%s(%d) = %r, %s(%d.0) = %r' % (name, k, a.value, name, k, b.value), wit)
+            elif a.returned:
+                ctx.nontrivial(['int', name, k])
+    # the route by which integers really arrive: sums of kronecker deltas
+    from mitxgraders.helpers.calc import evaluator, DEFAULT_VARIABLES
+    for name in names:
+        s_ = '%s(kronecker(1,1)+kronecker(2,2))' % name
+        a = lib.call(ctx, lambda: evaluator(s_, DEFAULT_VARIABLES, table, {})[0])
+        b = call_fn(ctx, table, name, [2.0])
+        ctx.ev(2)
+        ctx.count('int_argument_checks')
+        if a.returned != b.returned or (a.returned and not close(a.value, b.value)):
+            ctx.violation('C15:int_argument:through_kronecker:' + name, '%s -> %r, %s(2.0) -> %r' % (s_, a.brief(), name, b.brief()), {'string': s_})
+
+
 def run_saturating(ctx, table):
     """tan, cot, tanh, coth stay bounded far from the real (imaginary) axis: their limits, not an overflow."""
     cases = []
@@ -546,6 +574,9 @@ def run(ctx):
     if ctx.shard % 4 == 1:
         run_multi(ctx, mtable)
     run_matrix_functions(ctx, mtable)
+    if ctx.shard % 4 == 1:
+        run_int_arguments(ctx, ftable)
+        run_int_arguments(ctx, mtable)
     if ctx.shard % 4 == 2:
         run_saturating(ctx, ftable)
         run_saturating(ctx, mtable)
